@@ -8,6 +8,7 @@ import Driver.Structure
 import Driver.Clip
 import Driver.Values
 import Driver.Refs
+import Driver.BBox
 open Driver
 
 def step (line : String) : String :=
@@ -30,6 +31,9 @@ def step (line : String) : String :=
   | "rxryobs" :: args => handleStructure "rxryobs" args
   | "switch" :: args => handleStructure "switch" args
   | "clipf" :: args => handleClip args
+  | "gbox" :: args => handleBBox "gbox" args
+  | "rectts" :: args => handleBBox "rectts" args
+  | "abst" :: args => handleBBox "abst" args
   | "collect" :: args => handleRefs "collect" args
   | "writenum" :: args => handleRefs "writenum" args
   | "escattr" :: args => handleRefs "escattr" args
